@@ -1091,11 +1091,14 @@ def run(tier: str, replay: str | None = None):
             hist["splat"]["different_lengths"] += int(difflen)
             sig2 = {"id": ss["id"], "flavor": "function", "tvs": [], "ret": [A("int")],
                     "params": [dict(p, default=None if p["default"] is None else {"o": p["default"]}) for p in ss["params"]]}
-            mc = splat.model_call(ss, cs1)
+            # the model sees the union as unite_values leaves it: literal alternatives == to an earlier one are gone
+            mc = splat.model_call(ss, splat.collapse_equal(cs1) or cs1)
             case_in = {"splat": {"sig": ss, "case": cs1}, "source": splat.render_case(name, callee, cs1)[1].strip(), "def": splat.render_sig(ss)[0].strip()}
             seen.add(json.dumps(case_in["splat"], sort_keys=True))
             key2 = (10_000 + gi, name)
-            splat_pending.append((key2, case_in, must, diagnosed2, witness, difflen, r))
+            collapsed = splat.collapse_equal(cs1)
+            eqlit_verdict = splat.oracle(getattr(mod2, callee), ss, collapsed)[0] if collapsed is not None else None
+            splat_pending.append((key2, case_in, must, diagnosed2, witness, difflen, r, eqlit_verdict))
             if mc is not None:
                 hist["splat"]["modelled"] += 1
                 enc = uni.from_value(r["inferred"]) if r["inferred"] is not None else None
@@ -1136,7 +1139,7 @@ def run(tier: str, replay: str | None = None):
             _cleanup_cases("c06")
             rep.violation({"kind": "broken-correspondence", "correspondence": "Call.Model.check_call vs NameCheckVisitor on generated modules", "detail": str(ex)[-1500:]}, no_failing_input=True)
 
-    for key2, case_in, must, diagnosed2, witness, difflen, r in splat_pending:
+    for key2, case_in, must, diagnosed2, witness, difflen, r, eqlit_verdict in splat_pending:
         if must == diagnosed2:
             continue
         # known finding: tuples of different lengths are merged into one star argument of unknown length;
@@ -1144,6 +1147,10 @@ def run(tier: str, replay: str | None = None):
         # call (Call/Model.v with a_star = the union of all elements) predicts
         if difflen and key2 in model_kinds_by_key and bool(model_kinds_by_key[key2]) == diagnosed2:
             rep.known(splat.F_DIFFLEN, splat.FINDING_TEXT[splat.F_DIFFLEN])
+        elif must and eqlit_verdict is not None and eqlit_verdict == diagnosed2:
+            # known finding: a literal alternative == to an earlier one is dropped by unite_values; attributed only
+            # when the verdict is the one the oracle gives for the call WITHOUT the dropped alternatives
+            rep.known(splat.F_EQLIT, splat.FINDING_TEXT[splat.F_EQLIT])
         elif must:
             oracle_fail.append((case_in, {"what": "a splat alternative fails to bind or passes a non-member, but the call is accepted", "witness": witness, "impl_codes": r["codes"]}))
         else:
